@@ -319,6 +319,8 @@ pub struct LinearOpts {
     pub allow_cluster: bool,
     /// sometimes use magnitudes near the ends of the exponent range
     pub extreme_magnitudes: bool,
+    /// exact number of points (overrides the random choice)
+    pub force_n: Option<usize>,
 }
 
 impl Default for LinearOpts {
@@ -330,6 +332,7 @@ impl Default for LinearOpts {
             allow_zero_lanes: false,
             allow_cluster: true,
             extreme_magnitudes: false,
+            force_n: None,
         }
     }
 }
@@ -368,8 +371,11 @@ pub fn extreme_exponents<T: Flt>(rng: &mut Rng) -> (i32, i32) {
 }
 
 pub fn gen_linear_case<T: Flt>(rng: &mut Rng, o: &LinearOpts) -> (Spec1<T>, Labels) {
-    let n = pick_n_long(rng, 2, o.max_n.max(2), if o.max_n >= 40 { 1025 } else { 0 });
-    let use_default_axis = rng.chance(0.1);
+    let n = match o.force_n {
+        Some(n) => n,
+        None => pick_n_long(rng, 2, o.max_n.max(2), if o.max_n >= 40 { 1025 } else { 0 }),
+    };
+    let use_default_axis = o.force_n.is_none() && rng.chance(0.1);
     let class = if o.allow_cluster {
         *rng.pick(&AxisClass::ALL)
     } else {
